@@ -99,8 +99,16 @@ def check(F, rep, tier):
                 for name, op in zip(st[2][1]["fields"], st[2][2]):
                     wires[name] = mir.field_sources(F, pz, op)
         want = {"major": ("release", "[0]"), "minor": ("release", "[1]"), "patch": ("release", "[2]"), "epoch": ("epoch", "call:then_some"), "post": ("post_number",), "dev": ("dev_number",), "pre_release": ("pre_label", "pre_number")}
+        # `epoch > 0` may be written as (epoch > 0).then_some(..) or as `if epoch > 0 { Some(..) } else { None }`
+        epoch_if = False
+        for bi, si, st in pz.stmts():
+            if st[0] == "=" and st[2][0] == "agg" and isinstance(st[2][1], dict) and st[2][1].get("variant") == "Some" and st[2][2]:
+                if any(o.fields()[-1:] == ["epoch"] for o in mir.trace_op(pz, st[2][2][0])):
+                    for d, pol, dd in mir.guards_of(pz, bi):
+                        if d[0] == "bin" and d[1] == "Gt" and pol is True and mir.const_of(d[3]) == 0 and any(o.fields()[-1:] == ["epoch"] for o in mir.trace_op(pz, d[2])): epoch_if = True
         for k, need in want.items():
             got = wires.get(k, set())
+            if k == "epoch" and epoch_if and "call:then_some" not in got: got = set(got) | {"call:then_some"}
             flat = " ".join(sorted(got))
             own = {"release", "epoch", "post_number", "dev_number", "pre_label", "pre_number", "local"}
             foreign = {x for x in got if x.split(".")[-1] in own and x.split(".")[-1] not in need}
